@@ -16,14 +16,20 @@ func (q queryServer) CalculateBondingAmount(ctx context.Context, req *types.Quer
 		return nil, status.Error(codes.InvalidArgument, "invalid request")
 	}
 
-	if _, err := q.k.stakingKeeper.ValidatorAddressCodec().StringToBytes(req.ValidatorAddress); err != nil {
+	validatorAddr, err := q.k.stakingKeeper.ValidatorAddressCodec().StringToBytes(req.ValidatorAddress)
+	if err != nil {
+		return nil, status.Error(codes.InvalidArgument, "invalid validator address")
+	}
+	// share denoms are derived from the canonical encoding of the address
+	validator, err := q.k.stakingKeeper.ValidatorAddressCodec().BytesToString(validatorAddr)
+	if err != nil {
 		return nil, status.Error(codes.InvalidArgument, "invalid validator address")
 	}
 	if req.Share.IsNil() || req.Share.IsNegative() {
 		return nil, status.Error(codes.InvalidArgument, "invalid share")
 	}
 
-	amount, err := q.k.CalculateAmountByShare(ctx, req.ValidatorAddress, req.Share)
+	amount, err := q.k.CalculateAmountByShare(ctx, validator, req.Share)
 	if err != nil {
 		return nil, status.Error(codes.Internal, err.Error())
 	}
@@ -42,14 +48,20 @@ func (q queryServer) CalculateShare(ctx context.Context, req *types.QueryCalcula
 		return nil, status.Error(codes.InvalidArgument, "invalid request")
 	}
 
-	if _, err := q.k.stakingKeeper.ValidatorAddressCodec().StringToBytes(req.ValidatorAddress); err != nil {
+	validatorAddr, err := q.k.stakingKeeper.ValidatorAddressCodec().StringToBytes(req.ValidatorAddress)
+	if err != nil {
+		return nil, status.Error(codes.InvalidArgument, "invalid validator address")
+	}
+	// share denoms are derived from the canonical encoding of the address
+	validator, err := q.k.stakingKeeper.ValidatorAddressCodec().BytesToString(validatorAddr)
+	if err != nil {
 		return nil, status.Error(codes.InvalidArgument, "invalid validator address")
 	}
 	if req.Amount.IsNil() || req.Amount.IsNegative() {
 		return nil, status.Error(codes.InvalidArgument, "invalid amount")
 	}
 
-	share, err := q.k.CalculateShareByAmount(ctx, req.ValidatorAddress, req.Amount)
+	share, err := q.k.CalculateShareByAmount(ctx, validator, req.Amount)
 	if err != nil {
 		return nil, status.Error(codes.Internal, err.Error())
 	}
